@@ -24,6 +24,7 @@ CACHE = os.path.abspath(os.environ.get("VERIF_CACHE", os.path.join(VERIF, ".cach
 JOBS = int(os.environ.get("VERIF_JOBS", str(os.cpu_count() or 8)))
 EVID = os.path.abspath(os.environ.get("VERIF_EVIDENCE", os.path.join(VERIF, "evidence")))
 KNOWN_FILE = os.path.join(VERIF, "known_findings.json")
+ABORT_CAP = int(os.environ.get("VERIF_ABORT_CAP", "40"))   # identical abort signatures per group before its remaining cases are skipped
 
 ASAN_ENV = {
     "ASAN_OPTIONS": "abort_on_error=1:detect_leaks=0:handle_abort=1:allocator_may_return_null=1:"
@@ -212,6 +213,7 @@ class Acc:
         self.per_group = {}
         self.durations = {}   # group -> wall seconds of completed chunks (adaptive watchdog)
         self.hangs = {}       # group -> confirmed hangs (watchdog expired twice)
+        self.aborts = {}      # (group, kind, frame) -> aborts recorded with that signature
         self.slow = {}        # group -> watchdog expiries whose case finished when re-run alone
         self.slow_msgs = []
         self.adaptive = True  # tighten watchdogs from observed chunk durations (quick tier only)
@@ -463,6 +465,7 @@ def run_chunk(exe, base_args, group, lo, hi, timeout, workdir, acc, tag):
         else:
             kind, frame = classify_abort(err, rc)
             with acc.lock:
+                acc.aborts[(group, kind, frame)] = acc.aborts.get((group, kind, frame), 0) + 1
                 acc.evaluations += 1
                 acc.per_group[group] = acc.per_group.get(group, 0) + 1
                 for (cl, cls, wit) in c.viols:
@@ -477,6 +480,13 @@ def run_chunk(exe, base_args, group, lo, hi, timeout, workdir, acc, tag):
             with acc.lock:
                 acc.tally["cases-abandoned-after-two-hangs-in-chunk"] = acc.tally.get("cases-abandoned-after-two-hangs-in-chunk", 0) + (hi - start)
             return
+        with acc.lock:
+            worst = max([v for (g, _k, _f), v in acc.aborts.items() if g == group] or [0])
+            if worst >= ABORT_CAP and start < hi:
+                # the same abort signature was recorded ABORT_CAP times in this group: the violation is established;
+                # every further abort costs a process restart (seconds each for a stack overflow on the 1 GiB stack)
+                acc.tally["cases-not-run-after-%d-identical-aborts-in-group" % ABORT_CAP] = acc.tally.get("cases-not-run-after-%d-identical-aborts-in-group" % ABORT_CAP, 0) + (hi - start)
+                return
 
 
 def load_known():
